@@ -26,7 +26,7 @@ def plan(tier, seed):
 
 def thresholds(tier):
   t = {"types_built": 300, "values_checked": 5000, "layout_comparisons": 5000, "aliasing_probes": 20000,
-       "types_with_list_field": 100, "types_nested": 100, "hash_comparisons": 1000, "same_name_redeclarations": 200}
+       "types_with_list_field": 100, "types_nested": 100, "hash_comparisons": 1000, "same_name_redeclarations": 200, "hash_after_field_update_probes": 2000}
   if tier == "thorough":
     t = {k: v * 15 for k, v in t.items()}
   return t
@@ -298,6 +298,34 @@ def check_type(sh, shape, rng, case):
       bad = containers(shape, src, dst, ())
       if bad is not None and bad != ():
         W(how + "-aliases-container", path=bad)
+    # hash / ==  after IN-PLACE updates of single leaves of an object that has already been hashed (a history: hash, update, hash)
+    o = B.val(shape, v)
+    try:
+      hash(o); bag = {o}
+    except TypeError:
+      continue
+    cur = copy.deepcopy(v)
+    for (path, lo, w) in rng.sample(leaves, min(len(leaves), 3)):
+      leaf = leaf_obj(o, path)
+      new = int(leaf.uint()) ^ (R.mask(w) if rng.random() < 0.5 else 1)
+      if rng.random() < 0.5:
+        leaf @= new
+      else:
+        leaf <<= new; leaf._flip()
+      c = cur
+      for p_ in path[:-1]: c = c[p_]
+      c[path[-1]] = new
+      fresh = B.val(shape, cur)
+      sh.count("hash_after_field_update_probes")
+      try:
+        if not (o == fresh) or int(o.to_bits().uint()) != R.pack(shape, cur):
+          W("value-after-in-place-leaf-update-differs", path=path, value=cur); break
+        if hash(o) != hash(fresh) or hash(o) != hash(o.clone()) or hash(o) != hash(copy.deepcopy(o)):
+          W("hash-stale-after-in-place-leaf-update", path=path, value=cur); break
+        if fresh not in {o}:
+          W("equal-struct-not-found-in-set-after-in-place-leaf-update", path=path, value=cur); break
+      except TypeError:
+        break
   sh.sample({"shape": shape_fp(shape), "nbits": total, "leaves": len(leaves), "values": len(vals)})
 
 
